@@ -17,10 +17,11 @@ import dlib  # noqa: E402
 
 logging.disable(logging.CRITICAL)
 
-from traits.api import HasTraits, Int, List, push_exception_handler  # noqa: E402
+from traits.api import Any, HasTraits, Int, List, push_exception_handler  # noqa: E402
 
 EXN = ["IndexError", "ValueError", "TraitError", "TypeError", "KeyError", "AttributeError", "RecursionError"]
 NAMES = ["s0", "s1", "l0", "l1"]
+ALL_NAMES = NAMES + ["a0"]
 
 
 class A(HasTraits):
@@ -28,6 +29,7 @@ class A(HasTraits):
     s1 = Int
     l0 = List(Int)
     l1 = List(Int)
+    a0 = Any          # partner-only: takes whatever it is given; neither observed nor operated on
 
 
 LOGGED = [0]
@@ -117,9 +119,9 @@ def run_case(case, emit=None):
             elif k == "Mut":
                 mutate(getattr(pool[op[1]], NAMES[op[2]]), op[3])
             elif k == "Sync":
-                pool[op[1]].sync_trait(NAMES[op[2]], pool[op[3]], alias=NAMES[op[4]], mutual=bool(op[5]))
+                pool[op[1]].sync_trait(NAMES[op[2]], pool[op[3]], alias=ALL_NAMES[op[4]], mutual=bool(op[5]))
             elif k == "Unsync":
-                pool[op[1]].sync_trait(NAMES[op[2]], pool[op[3]], alias=NAMES[op[4]], mutual=bool(op[5]),
+                pool[op[1]].sync_trait(NAMES[op[2]], pool[op[3]], alias=ALL_NAMES[op[4]], mutual=bool(op[5]),
                                        remove=True)
             elif k == "Collect":
                 wr = weakref.ref(pool[op[1]])
